@@ -480,3 +480,17 @@ Proof.
   intros p a os ma mm iv base fs ip0 gp0 fuel cw [Ha [Hs [Hc [Hn [H1 H2]]]]] Hag Hwf Hf.
   exact (mix_recovers p a os ma mm cw iv base fs ip0 gp0 Ha Hs Hc Hn H1 H2 Hag Hwf fuel Hf).
 Qed.
+
+(* the chain, read off column by column: lookup address (module attribution is the module lookup of this address),
+   return address, technique label, stack pointer progress *)
+Lemma mix_chain_columns : forall a v gp base off fs,
+  map f_instr (mix_chain a v gp base off fs) = map (fun f => ms_ra f - a_adj a) fs /\
+  map f_resume (mix_chain a v gp base off fs) = map ms_ra fs /\
+  map f_trust (mix_chain a v gp base off fs) = map (fun f => mix_trust (ms_tech f)) fs /\
+  length (mix_chain a v gp base off fs) = length fs.
+Proof.
+  intros a v gp base off fs. revert v gp off.
+  induction fs as [|f t IH]; intros v gp off; cbn [mix_chain map length]; [auto|].
+  destruct (IH (mix_next_valid a (ms_tech f) v) (mix_next_gp (ms_tech f) gp) (off + ms_len f + 1)) as [I1 [I2 [I3 I4]]].
+  rewrite I1, I2, I3, I4. cbn [mix_frame f_instr f_resume f_trust]. auto.
+Qed.
